@@ -365,13 +365,16 @@ fn eval_cli(ws: &[&str]) -> Option<String> {
             argv.push(format!("--ff={}", unhex_str(&ws[14][1..])?));
         }
     }
-    let o = std::process::Command::new(&bin).args(&argv).env("NO_COLOR", "1").env("TMPDIR", &dir).output();
+    let mut cmd = std::process::Command::new(&bin);
+    cmd.args(&argv).env("NO_COLOR", "1").env("TMPDIR", &dir);
+    crate::out::current_op(None);
+    let (code, so, se, timed_out) = crate::out::run_limited(cmd, &dir, 20);
     let _ = std::fs::remove_file(&path);
+    let o: Result<(), String> = if timed_out { Err("hang: the binary did not exit within 20 s".into()) } else if code.is_none() && so.is_empty() && se.starts_with("spawn-failed") { Err(se.clone()) } else { Ok(()) };
     Some(match o {
-        Err(e) => format!("spawn-failed {}", e),
-        Ok(o) => {
-            let code = o.status.code().map(|c| c.to_string()).unwrap_or_else(|| "signal".into());
-            let so = String::from_utf8_lossy(&o.stdout).to_string();
+        Err(e) => e,
+        Ok(()) => {
+            let code = code.map(|c| c.to_string()).unwrap_or_else(|| "signal".into());
             let mut cyc = None;
             let mut st = None;
             let mut fe = None;
@@ -412,7 +415,9 @@ pub fn eval_line(ws: &[&str]) -> Option<String> {
 
 fn emit_line(out: &mut Out, line: &str) -> String {
     let ws: Vec<&str> = line.split(' ').collect();
+    crate::out::current_op(Some(line));
     let r = eval_line(&ws).unwrap_or_else(|| "bad-op".into());
+    crate::out::current_op(None);
     out.emit(line, &r);
     r
 }
